@@ -71,6 +71,14 @@ def renamed(prog, m):
         s.fields = {k: rename_tree(v, m) for k, v in s.fields.items()}
         s.name = m.get(s.name, s.name)  # src (plugin identity) is kept: only the step's name changes
     p.outputs = {k: rename_tree(v, m) for k, v in p.outputs.items()}
+    # references of the workflow input into the namespace of a step follow the step's new name
+    for prop in getattr(p.input_schema, "props", {}).values():
+        t = prop.get("type")
+        if isinstance(t, tuple) and t[0] == "ref" and len(t) > 2 and t[2]:
+            ns = t[2]
+            for old_name, new_name in m.items():
+                ns = ns.replace("$.steps.%s." % old_name, "$.steps.%s." % new_name)
+            prop["type"] = ("ref", t[1], ns)
     return p
 
 
@@ -115,6 +123,19 @@ def run(check):
                   "distinct = programs x variants") % reps
     check.assumptions = ["generated object ids (inferred_schema_<random>) are compared up to renaming; inferred ids are all mapped to one symbol when comparing variants"]
     gs = programs(check, n)
+    # loops over a sub-workflow written in the deprecated single-`output` form (rewritten into `outputs` when it is prepared),
+    # also two loops over the same file
+    for k in range(check.pick(4, 20)):
+        rng = random.Random(derive_seed(check.seed, "c16-legacy", k))
+        sub = gen.sub_program("sub.yaml", rng.choice([1, 2]))
+        sub.legacy_output = sub.outputs.pop("success")
+        sub.outputs = {}
+        steps = [Step("loop", "foreach", sub=sub, items=Expr(In("items")), parallelism=rng.choice([1, 2]))]
+        outs = {"success": {"d": Expr(Ref("loop", "outputs", "success", "data"))}}
+        if k % 2:
+            steps.append(Step("loop2", "foreach", sub=sub, items=[{"tag": Expr(In("tag"))}]))
+            outs["success"]["d2"] = Expr(Ref("loop2", "outputs", "success", "data"))
+        gs.append({"program": Program(steps, outs, gen.BASE_INPUT), "shape": "foreach-legacy-output-sub"})
     items, idx = [], 0
     for gi, g in enumerate(gs):
         prog = g["program"]
@@ -124,8 +145,12 @@ def run(check):
         styles = ["zz_%s_%d", "Zz%sX%d", "STEP_%s_%d", "camelCase%s%d"]
         m = {s.name: styles[(gi + i) % len(styles)] % (s.name, i) for i, s in enumerate(prog.steps)}
         variants.append(("renamed", renamed(prog, m), m))
+        # the same text prepared repeatedly through one step registry (as one engine instance does)
+        variants.append(("same-registry", prog, {}))
         for vname, p, mm in variants:
             case = {"id": "c16-%05d" % idx, "mode": "prep_many", "files": p.files(), "scripts": {}, "runs": [], "extra": {"reps": reps if vname == "same" else 3}, "no_events": True}
+            if vname == "same-registry":
+                case["extra"] = {"reps": 5, "share_registry": True}
             idx += 1
             items.append((case, gi, vname, mm))
     with harness.Runner(instrument=False) as rn:
